@@ -121,6 +121,10 @@ fn verif_witness_search() {
     }
   }
   exprs.push("(a :: b) :: c".to_string());
+  // `x.name <` would be read as the start of type arguments: these only parse with their parentheses
+  for e in ["(a.f) < b", "(Main.g) < 3", "(a + b.f) < c", "(-a.f) < c", "(a.f) < (c.g)", "(a.f) > c", "(a.f) <= c", "(a.m(b)) < c", "(a.f) < b && c"] {
+    exprs.push(e.to_string());
+  }
   let operands = [
     "a", "1", "(-a)", "(!a)", "a.f", "a.m(b)", "Main.f(a)", "(a + b)", "(if a { b } else { c })",
     "(match a { A(x) -> x, B -> 0 })", "({ let x = a; x })", "((x) -> x)",
